@@ -10,52 +10,6 @@ SIGN_TRACE_INV = ["TriageNeverWrong", "StableNeverWrong", "PerturbOnlyBreaksTies
                   "DistAntiSym", "DistZeroIffEqual", "CosZeroOnTie", "DotTriageNeverWrong", "DotResult"]
 
 
-def validate_sign_trace(ctx, path):
-    c = 'INIT Init\nNEXT Next\nCONSTANT TraceFile = "%s"\n' % path + "".join("INVARIANT %s\n" % i for i in SIGN_TRACE_INV)
-    r = ctx.tlc("Trace_SignPipeline", c, workers=1, allow_violation=True, timeout=900, heap="6g")
-    if r.ok:
-        return None
-    txt = "\n".join(r.lines)
-    inv = re.findall(r"Invariant (\w+) is violated", txt)
-    ls = re.findall(r"^l = (\d+)|^/\\ l = (\d+)", txt, re.M)
-    if not inv or not ls:
-        raise vlib.Infra("sign trace validation failed unexpectedly:\n" + "\n".join(r.lines[-20:]))
-    pos = int([x for x in ls[-1] if x][0])
-    return inv[0], pos
-
-
-def trace_direction(ctx):
-    """Direction B: stage outcomes on adversarial floats, validated by Trace_SignPipeline.tla."""
-    n = 4000 if ctx.quick() else 60000
-    path = os.path.join(ctx.scratch, "signtrace.ndjson")
-    p = ctx.run_harness(["record", "sign", "--seed", str(ctx.seed), "--n", str(n), "--out", path], timeout=1200)
-    if p.returncode != 0:
-        raise vlib.Infra("record sign failed: " + (p.stderr or "")[-2000:])
-    events = sum(1 for _ in open(path))
-    bad = validate_sign_trace(ctx, path)
-    ctx.evaluations += events
-    ctx.traces += events
-    ctx.counters["float_trace_events"] = events
-    if bad:
-        inv, pos = bad
-        ev = open(path).read().splitlines()[pos - 1]
-        # confirm: re-record this single input in a fresh process and validate it alone
-        single = os.path.join(ctx.scratch, "signtrace1.ndjson")
-        ctx.run_harness(["record", "sign", "--from", path, "--line", str(pos), "--out", single])
-        again = validate_sign_trace(ctx, single)
-        if not again:
-            raise vlib.Infra("rejected trace event not reproduced: " + ev)
-        key = "signtrace/" + again[0]
-        known = vlib.load_known(ctx.prop)
-        if key in known:
-            ctx.known_hits.append((key, known[key]))
-        else:
-            ctx.violations.append(vlib.Violation(key, "recorded stage outcomes violate %s: %s" % (again[0], ev),
-                                                 {"op": "signtrace", "event": json.loads(ev)}))
-
-LEVEL = "model_checking"
-
-
 def run(ctx):
     rnd = random.Random(ctx.seed)
     ctx.rule = ("TLC enumerates ordered triples/pairs of integer lattice points (W1); a case is "
@@ -67,7 +21,7 @@ def run(ctx):
         "sufficiency of the floating-point error constants is only searched, not proved",
     ]
     all26 = set(range(1, 27))
-    trace_direction(ctx)
+    ctx.trace_direction("sign", "Trace_SignPipeline", SIGN_TRACE_INV, 4000 if ctx.quick() else 60000, "signtrace")
     # 1. N=1: all 17,576 ordered triples, model theorems + replay
     r = ctx.tlc("Gen_Sign", vlib.cfg(constants={"N": 1, "SubIdx": all26, "EmitAll": True},
                                      invariants=["TableEqualsSoS", "Rotation", "AntiSym", "ZeroIffEqual", "DetSign", "SemanticEqualsOracle", "Emit"]),
@@ -87,6 +41,12 @@ def run(ctx):
                                              invariants=["TableEqualsSoS", "Rotation", "AntiSym", "ZeroIffEqual", "DetSign", "SemanticEqualsOracle", "Emit"]),
                         workers=8)
             ctx.replay(r.tagged.get("CASE", []))
+    # 2b. two-scale world: the exact stage needs > 2000 bits
+    for _ in range(1 if ctx.quick() else 4):
+        sub = set(rnd.sample(range(1, 27), 9 if ctx.quick() else 14))
+        kidx = set(rnd.sample(range(1, 3 ** 9), 10 if ctx.quick() else 30)) | {0}
+        r = ctx.tlc("Gen_SignScale", vlib.cfg(constants={"N": 1, "SubIdx": sub, "KIdx": kidx}, invariants=["Consistent", "Emit"]), workers=8)
+        ctx.replay(r.tagged.get("CASE", []))
     # 3. distances
     r = ctx.tlc("Gen_Dist", vlib.cfg(constants={"N": 1, "SubIdx": all26},
                                      invariants=["AntiSym", "NonZero", "SelfClosest", "ChordEnds", "Emit"]), workers=8)
